@@ -18,9 +18,11 @@ Ties on the real mloda:
          fields that changed must be fields of the heap model, and their new values are checked against
          Model/Args.plan_call in vm_compute (chk_args);
        - the outcome (plan: per step attached filters / error kind; run: tables) is compared with the same call on fresh
-         equal objects; differences are allowed only inside the two known-defect domains (shared GlobalFilter whose
-         collection went stale, shared links set that grew), decided on the objects themselves and cross-checked with
-         the model's kf_filter / kf_links (chk_kf).
+         equal objects: as long as every earlier call used copy_features=True any difference is a violation (also inside
+         chk_args, mirroring theorem args_reuse); any write to the caller's links set or GlobalFilter is a violation;
+         the plan of an earlier prepared session must not change when its argument objects are passed to a later call.
+         (The two former known findings C07-filter-collection-accumulates / C07-links-set-grows are fixed in /repo; their
+         witnesses are run first as regression cases.)
 """
 from __future__ import annotations
 
@@ -46,8 +48,6 @@ logging.disable(logging.CRITICAL)
 REQ_A = ["MV.Model.Orch", "MV.Model.Session"]
 REQ_B = ["MV.Model.Args"]
 
-KF_FILTER = "C07-filter-collection-accumulates"
-KF_LINKS = "C07-links-set-grows"
 
 
 def canon_tables(res: Any) -> List[str]:
@@ -446,7 +446,8 @@ def gen_args_case(rng: random.Random) -> Dict[str, Any]:
 
 
 def witness_cases() -> List[Dict[str, Any]]:
-    """The witnesses of the two known findings (run first on every check)."""
+    """The witnesses of the two repaired findings (C07-filter-collection-accumulates, C07-links-set-grows): regression
+    cases, run first on every check."""
     spec = {"groups": [
         {"name": "R0", "kind": "root", "cfw": "PyArrowTable", "cols": {"a": [1, 2, 3], "b": [10, 20, 30], "k": [1, 2, 3]}},
         {"name": "R1", "kind": "root", "cfw": "PyArrowTable", "cols": {"c": [5, 6, 7], "d": [1, 1, 1], "j": [1, 2, 3]}},
@@ -640,8 +641,6 @@ ALLOWED_PATHS = ("compute_frameworks", "initial_requested_data", "data_type")
 def unmodelled_changes(before: Any, after: Any) -> List[str]:
     bad = []
     for p in diff_paths(before, after):
-        if p == ".links_set" or p.startswith(".filter.collection"):
-            continue
         if p.startswith(".features["):
             rest = p.split("]", 1)[1]
             if any(rest == "." + a for a in ALLOWED_PATHS) or rest.startswith(".options.group"):
@@ -657,9 +656,8 @@ def run_args_case(case: Dict[str, Any]) -> Dict[str, Any]:
     uni = Uni7(case["spec"], GateListener())
     pool = Pool(case, uni)
     ren = Renamer()
-    rec: Dict[str, Any] = {"case": case, "problems": [], "calls": [], "kf": []}
+    rec: Dict[str, Any] = {"case": case, "problems": [], "calls": []}
     rec["w0"] = model_world(uni, pool, ren)
-    pristine_links = rec["w0"]["links"]
     all_copy = True
     sessions: List[Tuple[Any, Any]] = []      # earlier prepared sessions and the dump of their plan's filters
     for ci, call in enumerate(case["calls"]):
@@ -692,44 +690,30 @@ def run_args_case(case: Dict[str, Any]) -> Dict[str, Any]:
         same_run = got["run"] == fgot["run"]
         c["same"] = bool(same_plan)
         c["same_run"] = bool(same_run)
-        # known-defect domains, decided on the objects themselves
-        links_grown = call["links"] and any(l not in pristine_links for l in entry["links"])
-        stale = False
-        if call["filter"]:
-            fresh_coll = {json.dumps(k): v for k, v in fworld["coll"]}
-            touched = set()
-            sess_f = fgot.get("session")
-            if sess_f is not None:
-                from mloda.core.core.step.feature_group_step import FeatureGroupStep
-                for st in sess_f.engine.execution_planner:
-                    if isinstance(st, FeatureGroupStep):
-                        for f in st.features.features:
-                            touched.add(json.dumps([uni.gid(st.feature_group), f.get_name()]))
-            else:
-                touched = {json.dumps(list(k)) for k, _ in entry["coll"]}      # fresh call failed: be conservative
-            for k, v in entry["coll"]:
-                kk = json.dumps(list(k))
-                if kk in touched and any(x not in fresh_coll.get(kk, []) for x in v):
-                    stale = True
-        c["links_grown"], c["stale"], c["all_copy_before"] = bool(links_grown), bool(stale), all_copy
+        c["all_copy_before"] = all_copy
+        if world["links"] != entry["links"] or world["coll"] != entry["coll"] or world["filters"] != entry["filters"]:
+            rec["problems"].append(f"call {ci} {call}: the caller's links set / GlobalFilter was written: links {entry['links']} -> "
+                                   f"{world['links']}, collection keys {[k for k, _ in entry['coll']]} -> {[k for k, _ in world['coll']]}")
         if all_copy and not (same_plan and same_run):
-            what = (f"call {ci} {call}: outcome with the shared objects ({got['err'] or 'planned'}, run {got['run'] and got['run'][0]}) differs "
-                    f"from the outcome with fresh equal objects ({fgot['err'] or 'planned'}, run {fgot['run'] and fgot['run'][0]})")
-            if links_grown:
-                rec["kf"].append((KF_LINKS, what))
-            elif stale:
-                rec["kf"].append((KF_FILTER, what))
-            else:
-                rec["problems"].append(what)
+            # is the request itself deterministic?  (fresh equal objects, same call, several times)
+            outs = set()
+            for _ in range(8):
+                g2 = do_call(uni, Pool(case, uni), call)
+                g2.pop("session", None)
+                outs.add(json.dumps([g2["err"], g2["plan"] and canon_steps(g2["plan"]), g2["run"]], default=str))
+            if len(outs) > 1:
+                c["nondet"] = True
+                rec["nondet"] = True
+        if all_copy and not (same_plan and same_run) and not c.get("nondet"):
+            rec["problems"].append(
+                f"call {ci} {call}: outcome with the shared objects ({got['err'] or 'planned'}, run {got['run'] and got['run'][0]}) differs "
+                f"from the outcome with fresh equal objects ({fgot['err'] or 'planned'}, run {fgot['run'] and fgot['run'][0]})")
         # -- earlier sessions: their frozen plan must not change when the shared filter object is used again
         for sj, (s_old, snap_old) in enumerate(sessions):
             now = dump(s_old.engine.execution_planner)
             if now != snap_old:
-                what = f"call {ci}: the plan of the session prepared by call {sj} changed: {diff_paths(snap_old, now)[:2]}"
-                if call["filter"]:
-                    rec["kf"].append((KF_FILTER, what))
-                else:
-                    rec["problems"].append(what)
+                rec["problems"].append(f"call {ci}: the plan of the session prepared by call {sj} changed: "
+                                       f"{diff_paths(snap_old, now)[:2]}")
                 sessions[sj] = (s_old, now)
         if got.get("session") is not None and call["copy"]:      # with copy_features=False the plan shares the caller's features
             sessions.append((got["session"], dump(got["session"].engine.execution_planner)))
@@ -795,8 +779,8 @@ def cq_args_case(rec: Dict[str, Any]) -> str:
 def part_b(rep: vlib.Reporter, tier: str, rng: random.Random) -> bool:
     n = 1000 if tier == "thorough" else 70
     recs = []
-    dist: Dict[str, Any] = {"sequences": 0, "calls": 0, "copy_false_calls": 0, "outcomes": {}, "shared_differs_from_fresh": 0,
-                            "in_kf_filter": 0, "in_kf_links": 0, "api_universes": 0, "with_filter": 0, "with_links": 0,
+    dist: Dict[str, Any] = {"sequences": 0, "calls": 0, "copy_false_calls": 0, "outcomes": {}, "shared_differs_from_fresh": 0, "shared_differs_from_fresh_after_copy_only": 0,
+                            "api_universes": 0, "with_filter": 0, "with_links": 0,
                             "objects_mutated_calls": 0}
     found = False
     wit = witness_cases()
@@ -816,25 +800,26 @@ def part_b(rep: vlib.Reporter, tier: str, rng: random.Random) -> bool:
             k = k.split(":")[0]
             dist["outcomes"][k] = dist["outcomes"].get(k, 0) + 1
             dist["shared_differs_from_fresh"] += int(not (c["same"] and c["same_run"]))
-            dist["in_kf_filter"] += int(c["stale"])
-            dist["in_kf_links"] += int(c["links_grown"])
+            dist["shared_differs_from_fresh_after_copy_only"] += int(c["all_copy_before"] and not (c["same"] and c["same_run"]))
             dist["with_filter"] += int(c["call"]["filter"])
             dist["with_links"] += int(c["call"]["links"])
             dist["objects_mutated_calls"] += int(bool(c["mutated"]))
             for m in c["mutated"]:
                 dist.setdefault("mutated_objects", {})
                 dist["mutated_objects"][m] = dist["mutated_objects"].get(m, 0) + 1
-        if any(c["stale"] or c["links_grown"] for c in rec["calls"]) or any(not c["call"]["copy"] for c in rec["calls"]):
+        if (any(c["call"]["filter"] for c in rec["calls"][:-1]) and rec["calls"][-1]["call"]["filter"]) or \
+                any(f["link"] is not None for f in case["features"]) or any(not c["call"]["copy"] for c in rec["calls"]):
             rep.nontrivial(("B", case))
         for p in rec["problems"]:
             found = True
             rep.finding("args:" + p[:80] + json.dumps(case, sort_keys=True)[:120], "argument reuse: " + p,
                         {"kind": "args", "case": case, "problem": p})
-        for key, what in rec["kf"]:
-            rep.finding(key, what, {"kind": "args", "case": case, "what": what})
+    # sequences containing a request whose outcome is not a function of its arguments (it varies between identical calls
+    # on fresh objects: planning-determinism, property C04) cannot be judged against a fresh oracle
+    dist["sequences_with_nondeterministic_request"] = sum(1 for r in recs if r.get("nondet"))
+    recs = [r for r in recs if not r.get("nondet")]
     terms = [cq_args_case(r) for r in recs]
     bad, info = vlib.run_cases("C07", "args", REQ_B, "chk_args", terms, case_type="universe * world * list cobs", shard=60)
-    bad_kf, info_kf = vlib.run_cases("C07", "kf", REQ_B, "chk_kf", terms, case_type="universe * world * list cobs", shard=60)
     for i in bad[:6]:
         r = recs[i]
         found = True
@@ -842,19 +827,12 @@ def part_b(rep: vlib.Reporter, tier: str, rng: random.Random) -> bool:
                     "observed effect of prepare/run_all on the caller's objects (or its planning outcome) is not the model's "
                     "(Model/Args.plan_call): " + json.dumps([{"err": c["err"], "plan": c["plan"], "world": c["world"]} for c in r["calls"]], default=str)[:600],
                     {"kind": "args", "case": r["case"]})
-    for i in bad_kf[:6]:
-        r = recs[i]
-        found = True
-        rep.finding("args-kf:" + json.dumps(r["case"], sort_keys=True)[:200],
-                    "a call outside the model's known-defect domains (kf_filter, kf_links) behaves differently with shared and "
-                    "with fresh objects", {"kind": "args", "case": r["case"]})
     rep.add("argument_sequences", dist)
     rep.add("args_model", {**info, "disagreements": len(bad)})
-    rep.add("args_kf_model", {**info_kf, "disagreements": len(bad_kf)})
     if recs:
-        r0 = next((r for r in recs if r["kf"]), recs[0])
+        r0 = recs[len(wit)] if len(recs) > len(wit) else recs[0]
         rep.sample({"part": "B", "features": r0["case"]["features"], "filters": r0["case"]["filters"], "links_set": r0["case"]["links_set"],
-                    "calls": r0["case"]["calls"], "outcomes": [(c["err"], c["same"], c["stale"], c["links_grown"]) for c in r0["calls"]]})
+                    "calls": r0["case"]["calls"], "outcomes": [(c["err"], c["run"] and c["run"][0], c["same"], c["same_run"]) for c in r0["calls"]]})
     return found
 
 
@@ -879,7 +857,8 @@ def run(rep: vlib.Reporter, tier: str, seed: int) -> None:
     found = part_b(rep, tier, random.Random(seed * 7927 + 11)) or found
     rep.add("rule", "A: PRNG histories on one session; non-trivial = >= 3 operation kinds incl. a failing and a successful one. "
                     "B: PRNG sequences of 2-5 prepare/run_all calls over a shared pool of Feature/Options/Link/GlobalFilter/api_data "
-                    "objects; non-trivial = a call inside a known-defect domain or a copy_features=False call.")
+                    "objects; non-trivial = the GlobalFilter is passed to >= 2 calls incl. the last, or a feature carries a Link, or a "
+                    "copy_features=False call.")
     if not pr.ok and not found:
         rep.finding("proof-broken", "Props/C07.v no longer checks",
                     {"failed_files": pr.failed_files, "forbidden": pr.forbidden, "log_tail": pr.log[-3000:]}, found_input=False)
@@ -894,8 +873,8 @@ def replay(path: str) -> int:
         return 1 if rec.get("problems") else 0
     if r.get("kind") == "args":
         rec = run_args_case(r["case"])
-        print(json.dumps({"calls": [{k: c[k] for k in ("call", "err", "plan", "run", "same", "same_run", "stale", "links_grown")}
-                                    for c in rec["calls"]], "problems": rec["problems"], "kf": rec["kf"]}, indent=1, default=str))
+        print(json.dumps({"calls": [{k: c[k] for k in ("call", "err", "plan", "run", "same", "same_run")}
+                                    for c in rec["calls"]], "problems": rec["problems"]}, indent=1, default=str))
         return 1 if rec["problems"] else 0
     print(json.dumps(r, indent=1, default=str)[:4000])
     return 0
